@@ -20,7 +20,7 @@ BAD_KEY = bytes(range(7, 39))
 OTHER_KEY = bytes(range(200, 232))
 
 ABSTRACT = {"valid": "valid", "flip_cipher": "forged", "flip_hash": "forged", "short": "forged", "long": "forged", "otherkey": "forged",
-            "retype": "garbage", "garbage": "garbage", "error": "error", "enc": "enc", "none": "none",
+            "retype": "garbage", "garbage": "garbage", "error": "error", "enc": "enc", "encold": "enc", "none": "none",
             "badtag": "bad", "badinner": "bad", "badsig": "bad", "signed_garbage": "bad", "hsr": "hsr",
             "valid+unsolicited": "valid+unsolicited", "dup": "dup"}
 CONCRETE_HS = {"valid": ["valid"], "forged": ["flip_cipher", "flip_hash", "short", "long", "otherkey"], "garbage": ["retype", "garbage"],
@@ -180,6 +180,11 @@ class Session:
                 park(b"\x83\x70\x00\x10\x20\x07" + bytes(18), "OTHER")
             elif cls == "enc":
                 park(landev.v3_enc_packet(s["key"], landev.v2_wrap(self.frame), 1), "ENC", k, True)
+            elif cls == "encold":                         # an encrypted response that is valid under the PREVIOUS session key (the one the client still holds)
+                if s.get("prevkey"):
+                    park(landev.v3_enc_packet(s["prevkey"], landev.v2_wrap(self.frame), 1), "ENC", s.get("prevkeyid", 0), True)
+                else:
+                    park(landev.v3_error_packet(), "ERR")
             # "none": nothing
         elif kind == "hs_bad":
             if cls != "none":
@@ -516,6 +521,8 @@ class Session:
     def peerclose(self, reset=False):
         """The peer closes the connection (reset=True: the connection is lost with an error, e.g. ECONNRESET)."""
         trs = [t for t in self.net.conns if not t._closing]
+        if not trs:
+            return []                      # nothing is connected (an earlier step of the scenario did not get that far): no event
         tr = trs[-1]
         tr.peer_close(ConnectionResetError(104, "Connection reset by peer") if reset else None)
         self.loop.run_idle()
